@@ -3,10 +3,10 @@
 use crate::red::*;
 use crate::util::*;
 use crate::zoo::{from_json_str, ppath};
-use feos::estimator::{DataSet, Diffusion, EquilibriumLiquidDensity, Estimator, LiquidDensity, Loss, Phase, ThermalConductivity, VaporPressure, Viscosity};
+use feos::estimator::{BinaryPhaseDiagram, BinaryVleChemicalPotential, BinaryVlePressure, DataSet, Diffusion, EquilibriumLiquidDensity, Estimator, LiquidDensity, Loss, Phase, ThermalConductivity, VaporPressure, Viscosity};
 use feos::pcsaft::{PcSaft, PcSaftParameters, PcSaftRecord};
-use feos_core::parameter::{Parameter, PureRecord};
-use feos_core::{Contributions, DensityInitialization, EntropyScaling, PhaseEquilibrium, ReferenceSystem, Residual, SolverOptions, State};
+use feos_core::parameter::{IdentifierOption, Parameter, PureRecord};
+use feos_core::{Contributions, DensityInitialization, EntropyScaling, PhaseDiagram, PhaseEquilibrium, ReferenceSystem, Residual, SolverOptions, State};
 use ndarray::{arr1, Array1};
 use quantity::*;
 use serde_json::{json, Value};
@@ -167,6 +167,87 @@ pub fn run(args: &Args) {
         let f_of = |k: usize| match losses[k].0 { "linear" => 1.0, "softl1" => 0.3, "huber" => 0.2, "cauchy" => 0.5, _ => 0.7 };
         tr.ev(json!({"ev":"Estimator","case":name,"weights":fv(w.iter()),"losses":[losses[li.0].0, losses[li.1].0],"f":fv([f_of(li.0), f_of(li.1)].iter()),
             "cost":fv(c.iter()),"r":[fv(r1.iter()), fv(r2_.iter())]}));
+    }
+    // ---- binary VLE data sets: chemical-potential residuals, bubble / dew pressures, distance to the model's phase diagram
+    {
+        let pairs: Vec<(&str, &str, f64)> = if args.thorough {
+            vec![("propane", "butane", 300.0), ("ethane", "butane", 250.0), ("butane", "hexane", 380.0), ("methane", "propane", 200.0), ("pentane", "octane", 400.0), ("propane", "hexane", 340.0)]
+        } else { vec![("propane", "butane", 300.0), ("ethane", "butane", 250.0)] };
+        let losses2: Vec<(&str, Loss)> = vec![("linear", Loss::Linear), ("huber", Loss::huber(0.2))];
+        for (c1, c2, tk) in pairs {
+            let Ok(par) = PcSaftParameters::from_json(vec![c1, c2], ppath("pcsaft/gross2001.json"), None, IdentifierOption::Name) else { continue };
+            let eos = Arc::new(PcSaft::new(Arc::new(par)));
+            let case = format!("gross2001/{}+{}", c1, c2);
+            let t = Temperature::from_reduced(tk);
+            let xs: Vec<f64> = vec![0.1, 0.3, 0.5, 0.7, 0.9];
+            let mut pts = vec![]; let (mut tv, mut pv, mut xv, mut yv) = (vec![], vec![], vec![], vec![]);
+            let mut p_bub = vec![]; let mut p_dew = vec![];
+            for &x in &xs {
+                let Ok(vle) = PhaseEquilibrium::bubble_point(&eos, t, &arr1(&[x, 1.0 - x]), None, None, Default::default()) else { continue };
+                let p = vle.vapor().pressure(Contributions::Total);
+                let y = vle.vapor().molefracs[0];
+                let (Ok(liq), Ok(vap)) = (State::new_npt(&eos, t, p, &Moles::from_reduced(arr1(&[x, 1.0 - x])), DensityInitialization::Liquid),
+                    State::new_npt(&eos, t, p, &Moles::from_reduced(arr1(&[y, 1.0 - y])), DensityInitialization::Vapor)) else { continue };
+                let jm = JOULE / MOL;
+                let mul = liq.residual_chemical_potential(); let muv = vap.residual_chemical_potential();
+                pts.push(json!({"x": fs(x), "y": fs(y), "p_Pa": fs(p.convert_into(PASCAL)),
+                    "mu_res_liquid": fv([mul.get(0).convert_into(jm), mul.get(1).convert_into(jm)].iter()), "mu_res_vapor": fv([muv.get(0).convert_into(jm), muv.get(1).convert_into(jm)].iter()),
+                    "rho_liquid": fv(liq.partial_density.to_reduced().iter()), "rho_vapor": fv(vap.partial_density.to_reduced().iter()), "RT": fs((RGAS * t).convert_into(jm))}));
+                // the library calls BinaryVlePressure wraps (same arguments)
+                p_bub.push(PhaseEquilibrium::bubble_point(&eos, t, &arr1(&[x, 1.0 - x]), Some(p), None, Default::default()).map(|v| v.vapor().pressure(Contributions::Total).convert_into(PASCAL)).unwrap_or(f64::NAN));
+                p_dew.push(PhaseEquilibrium::dew_point(&eos, t, &arr1(&[y, 1.0 - y]), Some(p), None, Default::default()).map(|v| v.vapor().pressure(Contributions::Total).convert_into(PASCAL)).unwrap_or(f64::NAN));
+                tv.push(tk); pv.push(p.convert_into(PASCAL)); xv.push(x); yv.push(y);
+            }
+            if tv.is_empty() { continue }
+            let temps = Temperature::from_reduced(Array1::from_vec(tv.clone()));
+            let pres = Array1::from_vec(pv.clone()) * PASCAL;
+            let sets: Vec<(&str, Arc<dyn DataSet<E>>)> = vec![
+                ("chemical_potential", Arc::new(BinaryVleChemicalPotential::new(temps.clone(), pres.clone(), Array1::from_vec(xv.clone()), Array1::from_vec(yv.clone())))),
+                ("pressure(liquid)", Arc::new(BinaryVlePressure::new(temps.clone(), pres.clone(), Array1::from_vec(xv.clone()), Phase::Liquid))),
+                ("pressure(vapor)", Arc::new(BinaryVlePressure::new(temps.clone(), pres.clone(), Array1::from_vec(yv.clone()), Phase::Vapor))),
+            ];
+            let mut out = vec![];
+            for (kind, ds) in &sets {
+                let costs: Vec<Value> = losses2.iter().map(|(ln, l)| json!([ln, fv(ds.cost(&eos, *l).map(|a| a.to_vec()).unwrap_or_default().iter())])).collect();
+                out.push(json!({"kind": kind, "predict": fv(ds.predict(&eos).map(|a| a.to_vec()).unwrap_or_default().iter()), "target": fv(ds.target().iter()),
+                    "relative_difference": fv(ds.relative_difference(&eos).map(|a| a.to_vec()).unwrap_or_default().iter()), "costs": costs}));
+            }
+            tr.ev(json!({"ev":"BinaryVle","case":case,"T":fs(tk),"points":pts,"p_bubble_Pa":fv(p_bub.iter()),"p_dew_Pa":fv(p_dew.iter()),"sets":out}));
+            // distance to the phase diagram: the diagram the data set computes (same call), experimental points on it (vertices, segment midpoints) and off it
+            for npoints in if args.thorough { vec![11usize, 26, 51] } else { vec![11usize, 26] } {
+                let Ok(dia) = PhaseDiagram::binary_vle(&eos, t, Some(npoints), None, Default::default()) else { continue };
+                let xl: Vec<f64> = dia.liquid().molefracs().column(0).to_vec();
+                let xg: Vec<f64> = dia.vapor().molefracs().column(0).to_vec();
+                let pp: Vec<f64> = dia.vapor().iter().map(|s| s.pressure(Contributions::Total).convert_into(PASCAL)).collect();
+                let n = pp.len();
+                if n < 3 { continue }
+                let mut groups: Vec<(&str, Vec<f64>, Vec<f64>, Vec<f64>)> = vec![];   // kind, p, x_liquid, x_vapor
+                let idx: Vec<usize> = vec![0, 1, n / 3, n / 2, n - 2, n - 1];
+                groups.push(("vertices", idx.iter().map(|&k| pp[k]).collect(), idx.iter().map(|&k| xl[k]).collect(), idx.iter().map(|&k| xg[k]).collect()));
+                // exact midpoints of a segment are on the polyline only up to rounding; the liquid and the vapor curve share the pressure
+                let mid: Vec<usize> = vec![0, n / 4, n / 2, n - 2];
+                groups.push(("midpoints", mid.iter().map(|&k| 0.5 * (pp[k] + pp[k + 1])).collect(), mid.iter().map(|&k| 0.5 * (xl[k] + xl[k + 1])).collect(), mid.iter().map(|&k| 0.5 * (xg[k] + xg[k + 1])).collect()));
+                let m = if args.thorough { 12 } else { 6 };
+                let (pmin, pmax) = (pp.iter().cloned().fold(f64::INFINITY, f64::min), pp.iter().cloned().fold(0.0, f64::max));
+                groups.push(("scattered", (0..m).map(|_| pmin * 0.7 + rng.range(0.0, 1.0) * (1.3 * pmax - 0.7 * pmin)).collect(), (0..m).map(|_| rng.range(0.0, 1.0)).collect(), (0..m).map(|_| rng.range(0.0, 1.0)).collect()));
+                groups.push(("near", (0..m).map(|k| pp[(k * 7) % n] * (1.0 + rng.range(-0.05, 0.05))).collect(), (0..m).map(|k| (xl[(k * 7) % n] + rng.range(-0.03, 0.03)).clamp(0.0, 1.0)).collect(),
+                    (0..m).map(|k| (xg[(k * 7) % n] + rng.range(-0.03, 0.03)).clamp(0.0, 1.0)).collect()));
+                for (kind, pe, xle, xge) in groups {
+                    for which in ["both", "liquid", "vapor"] {
+                        let l = if which != "vapor" { Some(Array1::from_vec(xle.clone())) } else { None };
+                        let g = if which != "liquid" { Some(Array1::from_vec(xge.clone())) } else { None };
+                        let ds: Arc<dyn DataSet<E>> = Arc::new(BinaryPhaseDiagram::new(t, Array1::from_vec(pe.clone()) * PASCAL, l, g, Some(npoints)));
+                        let pred = ds.predict(&eos);
+                        tr.ev(json!({"ev":"BinaryPhaseDiagram","case":case,"spec":"T","T":fs(tk),"npoints":npoints,"kind":kind,"which":which,
+                            "dia_x_liquid":fv(xl.iter()),"dia_x_vapor":fv(xg.iter()),"dia_tp":fv(pp.iter()),
+                            "exp_tp":fv(pe.iter()),"exp_x_liquid":fv(xle.iter()),"exp_x_vapor":fv(xge.iter()),
+                            "ok":pred.is_ok(),"predict":fv(pred.map(|a| a.to_vec()).unwrap_or_default().iter()),"target":fv(ds.target().iter()),
+                            "relative_difference":fv(ds.relative_difference(&eos).map(|a| a.to_vec()).unwrap_or_default().iter())}));
+                        if kind != "vertices" && which != "both" && !args.thorough { break }
+                    }
+                }
+            }
+        }
     }
     let _ = from_json_str::<PcSaftParameters>;
     // ---- the Estimator object through TLC-generated construction histories (new with k entries, add_data, cost after every operation)
